@@ -44,36 +44,45 @@ def run_demo(root, demo):
 
 
 def confirm(src, prop, name):
+    """src = <worktree>/_mutants/m<i>; the agent's own scratch worktree is used for the confirmation
+    (several demos insist on importing the library from exactly that path)."""
+    wt = os.path.dirname(os.path.dirname(os.path.abspath(src)))
     dst = os.path.join(HERE, "seeded", name)
     os.makedirs(dst, exist_ok=True)
     for f in ("patch.diff", "demo.py", "notes.md"):
         if os.path.exists(os.path.join(src, f)):
             shutil.copy(os.path.join(src, f), dst)
     meta = {"name": name, "property": prop, "source": "independent sub-agent (given only the property text and a scratch worktree)"}
-    root = scratch()
+    git = ["git", "-C", wt]
+    subprocess.run(git + ["checkout", "--", "comb_spec_searcher"], check=True)
+    dirty = subprocess.run(git + ["status", "--porcelain", "--untracked-files=no"], capture_output=True, text=True).stdout.strip()
+    meta["worktree_clean_before"] = dirty == ""
+    demo = os.path.join(src, "demo.py")
     try:
-        rc0, out0 = run_demo(root, os.path.join(dst, "demo.py"))
+        rc0, out0 = run_demo(wt, demo)
         meta["demo_without_change"] = {"exit": rc0, "tail": out0[-300:]}
-        ok, msg = apply(root, os.path.join(dst, "patch.diff"))
+        p = subprocess.run(git + ["apply", os.path.join(src, "patch.diff")], capture_output=True, text=True)
+        ok = p.returncode == 0
         meta["patch_applies"] = ok
         if not ok:
-            meta["patch_error"] = msg
+            meta["patch_error"] = p.stderr[-300:]
         else:
-            env = dict(os.environ, PYTHONPATH=root)
-            t = subprocess.run(["timeout", "1200", PY, "-m", "pytest", "-q", "-p", "no:cacheprovider", "--timeout=900"], cwd=root, env=env, capture_output=True, text=True)
+            env = dict(os.environ, PYTHONPATH=wt)
+            t = subprocess.run(["timeout", "1200", PY, "-m", "pytest", "-q", "-p", "no:cacheprovider", "--timeout=900"], cwd=wt, env=env, capture_output=True, text=True)
             meta["tests_with_change"] = {"exit": t.returncode, "tail": t.stdout.strip().splitlines()[-1:] if t.stdout.strip() else []}
-            rc1, out1 = run_demo(root, os.path.join(dst, "demo.py"))
+            rc1, out1 = run_demo(wt, demo)
             meta["demo_with_change"] = {"exit": rc1, "tail": out1[-300:]}
         meta["confirmed"] = bool(ok and meta["tests_with_change"]["exit"] == 0 and meta["demo_with_change"]["exit"] != 0 and rc0 == 0)
     finally:
-        shutil.rmtree(root, ignore_errors=True)
+        subprocess.run(git + ["checkout", "--", "comb_spec_searcher"])
     notes = os.path.join(dst, "notes.md")
     if os.path.exists(notes):
         meta["needs_to_manifest"] = open(notes).read()[:1500]
     meta["ran"] = [
-        "git archive HEAD of /repo into a scratch directory under /tmp; patch -p1 < patch.diff",
-        "PYTHONPATH=<scratch> /venv/bin/python -m pytest -q -p no:cacheprovider --timeout=900   (in the scratch copy)",
-        "PYTHONPATH=<scratch> /venv/bin/python demo.py   (with and without the patch)",
+        f"in the scratch worktree {wt} (git worktree of /repo HEAD, outside /repo and /verif): git apply patch.diff",
+        f"cd {wt} && PYTHONPATH={wt} /venv/bin/python -m pytest -q -p no:cacheprovider --timeout=900",
+        f"PYTHONPATH={wt} /venv/bin/python demo.py   (before and after applying the patch); git checkout -- comb_spec_searcher afterwards",
+        "checks: tools/seeded.py check <name> (scratch copy of /repo HEAD with the patch, VERIF_REPO=<scratch>)",
     ]
     json.dump(meta, open(os.path.join(dst, "meta.json"), "w"), indent=1)
     print(name, "confirmed" if meta["confirmed"] else "NOT CONFIRMED", {k: meta.get(k) for k in ("patch_applies", "tests_with_change", "demo_with_change", "demo_without_change")})
